@@ -87,6 +87,20 @@ func (p c03) Run(w *mon.Worker, idx int) mon.Result {
 	if doc.IsScalar() {
 		doc = ref.SeqV(doc, ref.IntV(1), ref.IntV(2))
 	}
+	// a quarter of the float-free documents go through the JSON decoder (it builds the node tree on its own)
+	inFmt := "yaml"
+	{
+		hasFloat := false
+		doc.Walk(nil, func(_ []any, n *ref.V) {
+			if n.K == ref.Float {
+				hasFloat = true
+			}
+		})
+		if !hasFloat && r.IntN(4) == 0 {
+			inFmt = "json"
+		}
+	}
+	evalDoc := func(expr string, d *ref.V) (*ref.V, []*ref.V, error) { return evalDocFmt(expr, d, inFmt) }
 	fam := []string{"fresh", "union", "derived", "fresh", "union", "derived", "side", "mapderived"}[idx%8]
 	res := mon.Result{Tags: []string{"family:" + fam}}
 	cs := map[string]any{"doc": doc.JSON(), "family": fam}
